@@ -9,6 +9,7 @@
 (* signature and as the other countersignature form.                       *)
 (***************************************************************************)
 EXTENDS CoseSystem, Json
+CONSTANTS Deep      \* TRUE: more parent/countersigner header shapes, all head widths of the decoded parent, real keys
 
 AlgV == [t |-> "alg", neg |-> TRUE, a |-> <<6>>]
 P1 == <<<<GoInt("int64", 1), AlgV>>, <<GoInt("int64", 4), GoBytes(<<49>>)>>>>
@@ -34,6 +35,7 @@ WideImage(pk, m, w) ==
       wide == [body EXCEPT !.xs[1].w = w] IN
   (CASE pk = "sign1" -> <<210>> [] pk = "sign" -> <<216, 98>> [] OTHER -> <<>>) \o Enc(wide)
 
+MakeParentW(pk, P, sig, pay, w) == <<[op |-> "unmarshal", obj |-> "par", kind |-> pk, buf |-> "w", bytes |-> WideImage(pk, ParentM(pk, P, sig, pay), w)]>>
 MakeParent(pk, decoded, P, sig, pay) ==
   IF decoded THEN <<[op |-> "unmarshal", obj |-> "par", kind |-> pk, buf |-> "w", bytes |-> WideImage(pk, ParentM(pk, P, sig, pay), 2)]>>
   ELSE <<[op |-> "new", obj |-> "par", kind |-> pk, m |-> ParentM(pk, P, sig, pay)]>>
@@ -60,6 +62,23 @@ BindProg(pk, form, abbr, decoded, x, mu) ==
   \o <<[op |-> "probe", obj |-> "par"]>>
   \o (IF abbr THEN <<[op |-> "verifycs0", obj |-> "", parent |-> "par", form |-> form, verifiers |-> <<Vf>>, buf |-> "z"] @@ x>>
       ELSE <<[op |-> "verifycs", obj |-> "cs", parent |-> "par", form |-> form, verifiers |-> <<Vf>>] @@ x>>)
+\* deep variants: parent protected shape, countersigner protected shape, head width of the decoded parent, real keys
+NestedV == [t |-> "map", ps |-> <<<<GoInt("int64", 2), GoStr(<<120>>)>>, <<GoInt("int64", 1), [t |-> "arr", xs |-> <<[t |-> "bool", v |-> TRUE]>>]>>>>]
+PShapes == { <<>>, P1, <<<<GoInt("int", 1), GoNeg("int8", 6)>>, <<GoStr(<<120>>), NestedV>>>>, <<<<GoInt("int64", 1), AlgV>>, <<GoInt("int64", 4), GoBytes([i \in 1..249 |-> i % 251])>>>> }
+CsShapes == { <<>>, P2, <<<<GoInt("int64", 1), AlgV>>, <<GoInt("int64", 4), GoBytes([i \in 1..18 |-> i])>>>> }
+DeepProg(pk, form, abbr, w, PP, CP, x, mu, real) ==
+  LET sg == IF real THEN [kind |-> "builtin", name |-> "s", alg |-> 0 - 7, fault |-> ""] ELSE Sg
+      vf == IF real THEN [kind |-> "builtin", name |-> "v", alg |-> 0 - 7, fault |-> ""] ELSE Vf IN
+  (IF w = 0 THEN <<[op |-> "new", obj |-> "par", kind |-> pk, m |-> ParentM(pk, PP, ParSig, Pay)]>> ELSE MakeParentW(pk, PP, ParSig, Pay, w))
+  \o (IF abbr
+      THEN <<[op |-> "probe", obj |-> "par"],
+             [op |-> "countersign0", obj |-> "", parent |-> "par", form |-> form, signers |-> <<sg>>, buf |-> "z"] @@ x>>
+      ELSE <<[op |-> "new", obj |-> "cs", kind |-> "csig", m |-> [P |-> CP, U |-> <<>>, sig |-> <<>>]],
+             [op |-> "countersign", obj |-> "cs", parent |-> "par", form |-> form, signers |-> <<sg>>] @@ x>>)
+  \o MutStep(pk, mu)
+  \o <<[op |-> "probe", obj |-> "par"]>>
+  \o (IF abbr THEN <<[op |-> "verifycs0", obj |-> "", parent |-> "par", form |-> form, verifiers |-> <<vf>>, buf |-> "z"] @@ x>>
+      ELSE <<[op |-> "verifycs", obj |-> "cs", parent |-> "par", form |-> form, verifiers |-> <<vf>>] @@ x>>)
 \* flow "refuse": unsigned or payload-less parents
 RefuseProg(pk, form, abbr, why, x) ==
   MakeParent(pk, FALSE, P1, IF why = "unsigned" THEN <<>> ELSE ParSig, IF why = "nopayload" THEN NilPayload ELSE Pay)
@@ -106,12 +125,19 @@ PickRefuse == st.phase = 0 /\ \E pk \in PKinds : \E form \in {"ptr", "val"} : \E
               /\ st' = [phase |-> 1, flow |-> "refuse", pk |-> pk, form |-> form, abbr |-> abbr, why |-> why, x |-> X1]
 PickReplay == st.phase = 0 /\ \E r \in {"as-message-signature", "abbreviated-as-full", "full-as-abbreviated", "signature-as-countersignature"} :
               st' = [phase |-> 1, flow |-> "replay", r |-> r]
-Next == PickBind \/ PickRefuse \/ PickReplay
+PickDeep == Deep /\ st.phase = 0 /\ \E pk \in PKinds : \E form \in {"ptr", "val"} : \E abbr \in BOOLEAN : \E w \in {0, 1, 2, 4, 8} : \E PP \in PShapes : \E CP \in CsShapes :
+              \E x \in Exts : \E mu \in Mutations(pk) : \E real \in BOOLEAN :
+              \* an empty countersigner header needs external data (nothing to insert the algorithm into otherwise is fine for signing, but verification needs alg or external data)
+              (real => (mu = "none" /\ w \in {0, 2}))
+              /\ st' = [phase |-> 1, flow |-> "deep", pk |-> pk, form |-> form, abbr |-> abbr, dec |-> w # 0, w |-> w, PP |-> PP, CP |-> CP, x |-> x, mu |-> mu, real |-> real]
+Next == PickBind \/ PickRefuse \/ PickReplay \/ PickDeep
 Spec == Init /\ [][Next]_st
 Emit == st.phase # 1 \/
   CASE st.flow = "bind" -> PrintT(<<"CASE", ToJson([flow |-> "bind", pk |-> st.pk, form |-> st.form, abbr |-> st.abbr, dec |-> st.dec, ext |-> st.x.ext, mu |-> st.mu,
                                                    steps |-> BindProg(st.pk, st.form, st.abbr, st.dec, st.x, st.mu)])>>)
     [] st.flow = "refuse" -> PrintT(<<"CASE", ToJson([flow |-> "refuse", pk |-> st.pk, form |-> st.form, abbr |-> st.abbr, why |-> st.why, ext |-> st.x.ext,
                                                      steps |-> RefuseProg(st.pk, st.form, st.abbr, st.why, st.x)])>>)
+    [] st.flow = "deep" -> PrintT(<<"CASE", ToJson([flow |-> "bind", pk |-> st.pk, form |-> st.form, abbr |-> st.abbr, dec |-> st.dec, ext |-> st.x.ext, mu |-> st.mu, real |-> st.real,
+                                                   steps |-> DeepProg(st.pk, st.form, st.abbr, st.w, st.PP, st.CP, st.x, st.mu, st.real)])>>)
     [] st.flow = "replay" -> PrintT(<<"CASE", ToJson([flow |-> "replay", r |-> st.r, ext |-> X1.ext, steps |-> ReplayProg(st.r)])>>)
 =============================================================================
